@@ -18,6 +18,8 @@ pub enum DevErrKind {
     WriteZero,
     Budget,
     BadSeek,
+    /// a transient "interrupted" error (EINTR-like): the caller may retry; never implies the operation happened
+    Interrupted,
 }
 
 #[derive(Debug, Clone)]
@@ -28,7 +30,7 @@ pub struct DevError {
 
 impl IoError for DevError {
     fn is_interrupted(&self) -> bool {
-        false
+        self.kind == DevErrKind::Interrupted
     }
     fn new_unexpected_eof_error() -> Self {
         DevError { kind: DevErrKind::Eof, id: 0 }
@@ -177,6 +179,10 @@ pub struct DevInner {
     pub wlog: Vec<WlogRec>,
     pub calls: u64,
     pub fault_at: Option<u64>,
+    /// fail the next device flush of this operation (instead of the k-th call)
+    pub fault_flush: bool,
+    /// the injected failure is a transient "interrupted" error
+    pub fault_intr: bool,
     pub fault_hit: Option<DevCall>,
     pub next_err_id: u64,
     pub budget: u64,
@@ -214,6 +220,8 @@ impl SimDevice {
             wlog: Vec::new(),
             calls: 0,
             fault_at: None,
+            fault_flush: false,
+            fault_intr: false,
             fault_hit: None,
             next_err_id: 1,
             budget: u64::MAX,
@@ -253,6 +261,13 @@ impl DevInner {
         if kind != CallKind::Seek && kind != CallKind::Flush && len > 0 && off.saturating_add(len) > self.vol_end {
             self.beyond.push(call.clone());
         }
+        if self.fault_flush && kind == CallKind::Flush && self.fault_hit.is_none() {
+            let id = self.next_err_id;
+            self.next_err_id += 1;
+            self.fault_hit = Some(call.clone());
+            self.log.push(call);
+            return Err(DevError { kind: if self.fault_intr { DevErrKind::Interrupted } else { DevErrKind::Injected }, id });
+        }
         if let Some(k) = self.fault_at {
             if self.calls == k {
                 let id = self.next_err_id;
@@ -284,12 +299,8 @@ impl DevInner {
     }
 }
 
-impl IoBase for SimDevice {
-    type Error = DevError;
-}
-
-impl Read for SimDevice {
-    fn read(&mut self, buf: &mut [u8]) -> Result<usize, DevError> {
+impl SimDevice {
+    pub fn raw_read(&mut self, buf: &mut [u8]) -> Result<usize, DevError> {
         let mut d = self.0.borrow_mut();
         let pos = d.pos;
         d.enter(CallKind::Read, pos, buf.len() as u64)?;
@@ -300,10 +311,7 @@ impl Read for SimDevice {
         d.pos += n as u64;
         Ok(n)
     }
-}
-
-impl Write for SimDevice {
-    fn write(&mut self, buf: &[u8]) -> Result<usize, DevError> {
+    pub fn raw_write(&mut self, buf: &[u8]) -> Result<usize, DevError> {
         let mut d = self.0.borrow_mut();
         let pos = d.pos;
         d.enter(CallKind::Write, pos, buf.len() as u64)?;
@@ -317,7 +325,7 @@ impl Write for SimDevice {
         d.pos += n as u64;
         Ok(n)
     }
-    fn flush(&mut self) -> Result<(), DevError> {
+    pub fn raw_flush(&mut self) -> Result<(), DevError> {
         let mut d = self.0.borrow_mut();
         let pos = d.pos;
         d.enter(CallKind::Flush, pos, 0)?;
@@ -326,10 +334,7 @@ impl Write for SimDevice {
         }
         Ok(())
     }
-}
-
-impl Seek for SimDevice {
-    fn seek(&mut self, pos: SeekFrom) -> Result<u64, DevError> {
+    pub fn raw_seek(&mut self, pos: SeekFrom) -> Result<u64, DevError> {
         let mut d = self.0.borrow_mut();
         let cur = d.pos;
         let target: Option<u64> = match pos {
@@ -345,5 +350,129 @@ impl Seek for SimDevice {
             }
             None => Err(DevError { kind: DevErrKind::BadSeek, id: 0 }),
         }
+    }
+}
+
+impl IoBase for SimDevice {
+    type Error = DevError;
+}
+
+// ---- the library sees the device through its own I/O traits ...
+#[cfg(not(feature = "stdio"))]
+impl Read for SimDevice {
+    fn read(&mut self, buf: &mut [u8]) -> Result<usize, DevError> {
+        self.raw_read(buf)
+    }
+}
+#[cfg(not(feature = "stdio"))]
+impl Write for SimDevice {
+    fn write(&mut self, buf: &[u8]) -> Result<usize, DevError> {
+        self.raw_write(buf)
+    }
+    fn flush(&mut self) -> Result<(), DevError> {
+        self.raw_flush()
+    }
+}
+#[cfg(not(feature = "stdio"))]
+impl Seek for SimDevice {
+    fn seek(&mut self, pos: SeekFrom) -> Result<u64, DevError> {
+        self.raw_seek(pos)
+    }
+}
+
+// ---- ... or, with feature `stdio`, as a std::io object behind the library's StdIoWrapper (what most users do): every call, including
+// read_exact / write_all / flush / seek, goes library -> SimDevice -> fatfs::StdIoWrapper -> StdSim (std::io traits) -> raw_*
+#[cfg(feature = "stdio")]
+pub struct StdSim(pub SimDevice);
+
+#[cfg(feature = "stdio")]
+impl std::fmt::Display for DevError {
+    fn fmt(&self, f: &mut std::fmt::Formatter<'_>) -> std::fmt::Result {
+        write!(f, "{:?}", self)
+    }
+}
+#[cfg(feature = "stdio")]
+impl std::error::Error for DevError {}
+
+#[cfg(feature = "stdio")]
+fn to_std(e: DevError) -> std::io::Error {
+    let kind = match e.kind {
+        DevErrKind::Interrupted => std::io::ErrorKind::Interrupted,
+        _ => std::io::ErrorKind::Other,
+    };
+    std::io::Error::new(kind, e)
+}
+
+#[cfg(feature = "stdio")]
+fn from_std(e: std::io::Error) -> DevError {
+    if let Some(d) = e.get_ref().and_then(|x| x.downcast_ref::<DevError>()) {
+        return d.clone();
+    }
+    match e.kind() {
+        std::io::ErrorKind::UnexpectedEof => DevError { kind: DevErrKind::Eof, id: 0 },
+        std::io::ErrorKind::WriteZero => DevError { kind: DevErrKind::WriteZero, id: 0 },
+        std::io::ErrorKind::Interrupted => DevError { kind: DevErrKind::Interrupted, id: 0 },
+        _ => DevError { kind: DevErrKind::BadSeek, id: 0 },
+    }
+}
+
+#[cfg(feature = "stdio")]
+impl std::io::Read for StdSim {
+    fn read(&mut self, buf: &mut [u8]) -> std::io::Result<usize> {
+        self.0.raw_read(buf).map_err(to_std)
+    }
+}
+#[cfg(feature = "stdio")]
+impl std::io::Write for StdSim {
+    fn write(&mut self, buf: &[u8]) -> std::io::Result<usize> {
+        self.0.raw_write(buf).map_err(to_std)
+    }
+    fn flush(&mut self) -> std::io::Result<()> {
+        self.0.raw_flush().map_err(to_std)
+    }
+}
+#[cfg(feature = "stdio")]
+impl std::io::Seek for StdSim {
+    fn seek(&mut self, pos: std::io::SeekFrom) -> std::io::Result<u64> {
+        let p = match pos {
+            std::io::SeekFrom::Start(x) => SeekFrom::Start(x),
+            std::io::SeekFrom::End(x) => SeekFrom::End(x),
+            std::io::SeekFrom::Current(x) => SeekFrom::Current(x),
+        };
+        self.0.raw_seek(p).map_err(to_std)
+    }
+}
+
+#[cfg(feature = "stdio")]
+impl SimDevice {
+    fn wrapped(&self) -> fatfs::StdIoWrapper<StdSim> {
+        fatfs::StdIoWrapper::new(StdSim(self.clone()))
+    }
+}
+#[cfg(feature = "stdio")]
+impl Read for SimDevice {
+    fn read(&mut self, buf: &mut [u8]) -> Result<usize, DevError> {
+        self.wrapped().read(buf).map_err(from_std)
+    }
+    fn read_exact(&mut self, buf: &mut [u8]) -> Result<(), DevError> {
+        self.wrapped().read_exact(buf).map_err(from_std)
+    }
+}
+#[cfg(feature = "stdio")]
+impl Write for SimDevice {
+    fn write(&mut self, buf: &[u8]) -> Result<usize, DevError> {
+        self.wrapped().write(buf).map_err(from_std)
+    }
+    fn write_all(&mut self, buf: &[u8]) -> Result<(), DevError> {
+        self.wrapped().write_all(buf).map_err(from_std)
+    }
+    fn flush(&mut self) -> Result<(), DevError> {
+        self.wrapped().flush().map_err(from_std)
+    }
+}
+#[cfg(feature = "stdio")]
+impl Seek for SimDevice {
+    fn seek(&mut self, pos: SeekFrom) -> Result<u64, DevError> {
+        self.wrapped().seek(pos).map_err(from_std)
     }
 }
